@@ -145,18 +145,18 @@ func (h *History) clone() *History {
 
 // Disk is one simulated directory plus its meta store.
 type Disk struct {
-	mu      sync.Mutex
-	beh     Behaviour
-	files   map[string]*inode // volatile namespace
-	durDir  map[string]*inode // durable namespace
-	dirOps  []dirOp           // pending since the last directory sync
-	meta    *MetaState
-	nextIno int
-	seq     int
-	hook    Hook
-	open    int // open file handles
+	mu       sync.Mutex
+	beh      Behaviour
+	files    map[string]*inode // volatile namespace
+	durDir   map[string]*inode // durable namespace
+	dirOps   []dirOp           // pending since the last directory sync
+	meta     *MetaState
+	nextIno  int
+	seq      int
+	hook     Hook
+	open     int // open file handles
 	metaOpen int
-	Hist    *History
+	Hist     *History
 	// IDViolations collects segment-identity rule breaches seen online.
 	IDViolations []string
 	// stats
